@@ -182,8 +182,19 @@ def localrun_trace(results):
                        {"host": "/d", "point": "/data", "mode": "ro"}],
             "remove": True, "stream": True, "filelist": ["/data/f1.root", "/data/f2.root"], "data_dir_is_files_dir": True}
     good = [{"sc": sc, "raised": False, "exc": "", "calls": [call], "returned": True, "returned_in_outdir": True,
-             "result_is_containers": True, "tmp_left": [], "pkg_dir_is_tmp": True}]
+             "result_is_containers": True, "tmp_left": [], "pkg_dir_is_tmp": True, "e2e_inputs": ["<none>"]}]
     _expect_clean("genuine record", _tlc_verdicts("LocalRunTrace", "LocalRunTrace.cfg", good), results)
+    rep = copy.deepcopy(good)
+    rep[0]["sc"] = dict(sc, files="repeat_aba", container="real_runner")
+    rep[0]["calls"][0]["filelist"] = ["/data/f1.root", "/data/f2.root", "/data/f1.root"]
+    rep[0]["e2e_inputs"] = ["/data/f1.root", "/data/f2.root", "/data/f1.root"]
+    _expect_clean("genuine record (a file named twice, real runner)", _tlc_verdicts("LocalRunTrace", "LocalRunTrace.cfg", rep), results)
+    bad = copy.deepcopy(rep)
+    bad[0]["calls"][0]["filelist"] = ["/data/f1.root", "/data/f2.root"]
+    _expect("a repeated file listed once", _tlc_verdicts("LocalRunTrace", "LocalRunTrace.cfg", bad), "FilelistExact", results)
+    bad = copy.deepcopy(rep)
+    bad[0]["e2e_inputs"] = ["/data/f1.root", "/data/f2.root"]
+    _expect("the job inside the container worked on other inputs", _tlc_verdicts("LocalRunTrace", "LocalRunTrace.cfg", bad), "ReturnsResult", results)
     for name, clause, f in [
             ("another image", "RightImage", lambda r: r["calls"][0].__setitem__("image", "vp/other:1")),
             ("file list in another order", "FilelistExact", lambda r: r["calls"][0].__setitem__("filelist", ["/data/f2.root", "/data/f1.root"])),
